@@ -33,7 +33,6 @@ const (
 	prExactExpiryInstant
 	prLateAfterEviction
 	prMultiEvictOneCall
-	prPushError
 	nRProbes
 )
 
@@ -41,7 +40,7 @@ var rProbeNames = []string{"overflow_eviction", "timeout_eviction", "complete_ev
 	"sequence_reused_after_delivery", "sequence_0_delivered", "rollover_inside_buffer", "events_lost_reported",
 	"eoe_completed_buffered_event", "close_flushed_events", "maintain_flushed_events", "push_after_close",
 	"overflow_eviction_of_incomplete_head", "window_edge_offset_used", "call_at_exact_expiry_instant",
-	"late_arrival_after_eviction", "several_evictions_in_one_call", "push_returned_error"}
+	"late_arrival_after_eviction", "several_evictions_in_one_call"}
 
 // callback records of one call
 type rGroup struct {
@@ -221,9 +220,6 @@ func ExecRPlan(p *RPlan, trace bool) *core.Result {
 					rawBuf[j] = '#'
 				}
 				isPush = callErr == nil
-				if callErr != nil {
-					res.Probes[prPushError]++
-				}
 			case opPushNil:
 				ra.PushMessage(nil)
 			case opPushBad:
@@ -500,6 +496,9 @@ func ExecRPlan(p *RPlan, trace bool) *core.Result {
 				}
 			}
 			if realPush || op.K == opMaintain {
+				if hd := head(); hd != nil && now == satAdd(hd.created, p.Timeout) {
+					res.Probes[prExactExpiryInstant]++ // the call was made exactly at the expiry instant of the oldest event
+				}
 				if hd := head(); hd != nil && now > satAdd(hd.created, p.Timeout) {
 					viol("C19", "stale-head-not-flushed", ropNames[op.K], "after %s (call #%d) at t=%s the oldest buffered event (sequence %d, created t=%s, timeout %s) is still buffered",
 						ropNames[op.K], i, time.Duration(now), hd.seq, time.Duration(hd.created), time.Duration(p.Timeout))
